@@ -107,16 +107,44 @@ def subst(t, doc):
 
     def rv(v):
         if isinstance(v, PathArg):
-            o = enc.outcome(lambda: v.build().get_data(doc, return_paths=False))
-            if o[0] != "ok":
-                return Raises(o[1])
-            return o[1]
+            return reference_resolve(v, doc)
         if isinstance(v, list):
             return [rv(x) for x in v]
         if isinstance(v, dict):
             return {k: rv(x) for k, x in v.items()}
         return v
     return ("leaf", t[1], t[2], [rv(a) for a in t[3]], {k: rv(v) for k, v in t[4].items()})
+
+
+def reference_resolve(pa, doc):
+    """what the path selects in the document, computed by the independent reference walk (not by get_data):
+    None for an absent concrete path, [] for an absent non-concrete one; datum then multiplicity modifiers"""
+    sel = [v for v, _ in terms.walk(pa.parts, doc)]
+    concrete = all(p[0] == "prim" for p in pa.parts)
+    if not sel:
+        return None if concrete else []
+    try:
+        if pa.datum == "length":
+            sel = [len(v) for v in sel]
+        elif pa.datum == "dtype":
+            sel = [type(v) for v in sel]
+        elif pa.datum == "map_keys":
+            sel = [list(v.keys()) for v in sel]
+        elif pa.datum == "map_values":
+            sel = [list(v.values()) for v in sel]
+    except (TypeError, AttributeError) as e:
+        return Raises(type(e).__name__)
+    if concrete:
+        return sel[0]
+    if pa.multi == "first":
+        return sel[0]
+    if pa.multi == "last":
+        return sel[-1]
+    if pa.multi == "single":
+        if len(sel) > 1:
+            return Raises("ValueError")
+        return sel[0]
+    return sel
 
 
 class Raises:
